@@ -28,6 +28,9 @@ CONSTANTS Resume,             \* abbreviated handshake: server knows the offered
           BackoffCap,         \* number of doublings until the 60 s cap is reached (model constant)
           NoBackoff,          \* DisableRetransmitBackoff
           ClientResendsFinal,
+          EstablishedStaysFinished, \* fsm12.send: an endpoint that is already established returns to Finished after
+                              \* re-sending (pinned tree: FALSE - a resumed server falls back to Waiting(4b) and
+                              \* retransmits on the timer although it completed; the "fix:" commit makes it TRUE)
           EmitCap,            \* emission counter saturates here (0 in liveness configurations)
           Gen                 \* print one environment script per explored edge
 
@@ -51,12 +54,13 @@ VARIABLES st,      \* FSM state at quiescence: "Waiting" | "Finished" | "Errored
                    \* anti-replay window drops it before it reaches the handshake layer.
           drops, dups, touts,
           emitted, \* per endpoint: number of datagrams emitted (C17 bound), capped
+          inputs,  \* per endpoint: timer events + datagrams received (capped), the budget side of the C17 bound
           cause,   \* what made the last emission happen: "recv" | "timer" | "start"  (C13/C17)
           lastEmit,\* <<endpoint, flight>> of the last emission or <<>>
           hist     \* environment script (hidden by VIEW)
 
-vars == <<st, fl, retx, bk, got, est, net, drops, dups, touts, emitted, cause, lastEmit, hist>>
-view == <<st, fl, retx, bk, got, est, net, drops, dups, touts, emitted, cause, lastEmit>>
+vars == <<st, fl, retx, bk, got, est, net, drops, dups, touts, emitted, inputs, cause, lastEmit, hist>>
+view == <<st, fl, retx, bk, got, est, net, drops, dups, touts, emitted, inputs, cause, lastEmit>>
 
 LastSend(f) == f \in {"F6", "F5b"}
 LastRecv(f) == f \in {"F5", "F4b"}
@@ -110,12 +114,13 @@ Deliver(f, k) ==
   /\ st[e] \in {"Waiting", "Finished"}
   /\ got' = [got EXCEPT ![e] = @ \cup {f}]
   /\ UNCHANGED <<drops, dups, touts>>
+  /\ inputs' = Inc(inputs, e)
   /\ IF st[e] = "Finished"
      THEN \* fsm12.finish
           IF e = "s" \/ (ClientResendsFinal /\ LastSend(fl[e]))
           THEN /\ net' = Put(Take(net, f, k), fl[e])
                /\ emitted' = Inc(emitted, e) /\ cause' = "recv" /\ lastEmit' = <<e, fl[e]>>
-               /\ st' = [st EXCEPT ![e] = IF LastSend(fl[e]) THEN "Finished" ELSE "Waiting"]
+               /\ st' = [st EXCEPT ![e] = IF LastSend(fl[e]) \/ EstablishedStaysFinished THEN "Finished" ELSE "Waiting"]
                /\ UNCHANGED <<fl, retx, bk, est>>
           ELSE /\ net' = Take(net, f, k)
                /\ NoEmit
@@ -150,7 +155,7 @@ DeliverStale(f) ==
   /\ net[f].s > 0
   /\ net' = [net EXCEPT ![f].s = @ - 1]
   /\ cause' = "none" /\ lastEmit' = <<>>
-  /\ UNCHANGED <<st, fl, retx, bk, got, est, drops, dups, touts, emitted>>
+  /\ UNCHANGED <<st, fl, retx, bk, got, est, drops, dups, touts, emitted, inputs>>
 
 \* the network loses one copy
 Drop(f, k) ==
@@ -160,14 +165,14 @@ Drop(f, k) ==
        [] k = "s" -> net[f].s > 0 /\ net' = [net EXCEPT ![f].s = @ - 1]
   /\ drops' = drops + 1
   /\ cause' = "none" /\ lastEmit' = <<>>
-  /\ UNCHANGED <<st, fl, retx, bk, got, est, dups, touts, emitted>>
+  /\ UNCHANGED <<st, fl, retx, bk, got, est, dups, touts, emitted, inputs>>
 
 \* the network duplicates a datagram
 Dup(f) ==
   /\ net[f].n > 0 /\ dups < MaxDup
   /\ net' = [net EXCEPT ![f].n = @ - 1, ![f].d = @ + 1] /\ dups' = dups + 1
   /\ cause' = "none" /\ lastEmit' = <<>>
-  /\ UNCHANGED <<st, fl, retx, bk, got, est, drops, touts, emitted>>
+  /\ UNCHANGED <<st, fl, retx, bk, got, est, drops, touts, emitted, inputs>>
 
 \* the retransmission timer of e fires (fsm.go handleRetransmitTimeout)
 Timeout(e) ==
@@ -181,6 +186,7 @@ Timeout(e) ==
              ELSE EmitUpd(e, fl[e], "timer")
      ELSE /\ UNCHANGED <<bk, net>> /\ NoEmit
   /\ UNCHANGED <<st, fl, retx, got, est, drops, dups>>
+  /\ inputs' = Inc(inputs, e)
 
 Init ==
   /\ st = [e \in E |-> "Waiting"]
@@ -192,6 +198,7 @@ Init ==
   /\ net = [f \in Flights |-> [n |-> IF f = "F1" THEN 1 ELSE 0, d |-> 0, s |-> 0]]   \* the first ClientHello is out
   /\ drops = 0 /\ dups = 0 /\ touts = 0
   /\ emitted = [e \in E |-> IF e = "c" THEN 1 ELSE 0]
+  /\ inputs = [e \in E |-> 0]
   /\ cause = "start" /\ lastEmit = <<"c", "F1">>
   /\ hist = <<>>
 
@@ -237,6 +244,10 @@ TimerLaw ==
 (* C17: after completing, an endpoint re-sends its final flight only in response to the peer *)
 FinalFlightOnlyOnPeerRetx ==
   [][\A e \in E : (est[e] /\ lastEmit' # <<>> /\ lastEmit'[1] = e) => cause' = "recv"]_vars
+
+(* C17: emissions are bounded by the timer schedule plus a constant per datagram received
+   (one datagram per flight here, so the constant is 1; the counters saturate at EmitCap) *)
+EmissionBound == \A e \in E : emitted[e] < EmitCap => emitted[e] <= 1 + inputs[e]
 
 TypeOK == /\ \A e \in E : st[e] \in {"Waiting", "Finished"} /\ bk[e] \in 0..BackoffCap
           /\ \A f \in Flights : net[f].n + net[f].d <= Cap
